@@ -175,6 +175,10 @@ def run_case(tid, cfg, seed):
     exc = None
     X = None
     opts = dict(cfg.get("opts", {}))
+    for pk in ("precond", "precond_l", "precond_r"):
+        if opts.get(pk) == "jacobi":        # diagonal (Jacobi) preconditioner of A, shared by all columns
+            dg = torch.diagonal(Amat, dim1=-2, dim2=-1)
+            opts[pk] = LinearOperator.m(torch.diag_embed(1.0 / dg), is_hermitian=bool(herm and not dtype.is_complex))
     try:
         with warnings.catch_warnings(record=True) as wl:
             warnings.simplefilter("always")
@@ -206,6 +210,7 @@ def run_case(tid, cfg, seed):
         bn = B.to(wd).norm(dim=-2).expand_as(rn)
         rtol = opts.get("rtol", 1e-6)
         atol = opts.get("atol", 1e-8)
+        cfg["opts"] = {k_: (v_ if not isinstance(v_, LinearOperator) else "jacobi") for k_, v_ in opts.items()}
         if cfg["method"] in ("exactsolve", "custom_exactsolve"):
             thr = (1e-4 if dtype == torch.float32 else 1e-11) * (bn + 1.0)
         elif cfg["method"] == "broyden1":
@@ -268,6 +273,18 @@ def case_list(thorough, rng):
                             zeroB=False, must_silent=False, opts={"max_niter": 2}))
             out.append(dict(method=method, mode="none", cls=cls, dtype="float64", op="dense", bA=[], bB=[], bE=[], bM=[], n=6, ncols=2,
                             zeroB=False, must_silent=False, opts={"rtol": 1e-10, "atol": 1e-12}))
+    # options that switch code paths inside the Krylov solvers
+    variants = {"cg": [{"posdef": True}, {"posdef": False}, {"resid_calc_every": 1}, {"resid_calc_every": 3}, {"precond": "jacobi"}],
+                "bicgstab": [{"posdef": True}, {"posdef": False}, {"resid_calc_every": 1}, {"resid_calc_every": 3}, {"precond_l": "jacobi"}, {"precond_r": "jacobi"},
+                             {"precond_l": "jacobi", "precond_r": "jacobi"}],
+                "gmres": [{"posdef": True}, {"posdef": False}]}
+    for method, vs in variants.items():
+        for o in vs:
+            for cls in (("spd",) if (method == "cg" or o.get("posdef")) else ("spd", "nonherm")):
+                for mode in (("none", "E") if method != "gmres" else ("none",)):
+                    for n_ in (6, 12):
+                        out.append(dict(method=method, mode=mode, cls=cls, dtype="float64", op="dense", bA=[], bB=[], bE=[], bM=[], n=n_, ncols=2,
+                                        zeroB=False, must_silent=(cls == "spd" and method != "gmres"), opts=dict(o)))
     return out
 
 
